@@ -5,6 +5,7 @@ decision fragments of the current sources carry exactly the comparison operators
 models transcribe; a flipped or weakened operator makes the theorem fail to compile.
 -/
 import PamsGen.Fragments
+import PamsModel.Runner
 
 namespace Pams.Source
 
@@ -18,5 +19,34 @@ def attrOf (key : String) : Option String :=
 
 def timeOf (fn : String) : Option String :=
   (PamsGen.triggerTimes.find? (fun x => x.1 = fn)).map (·.2)
+
+/-! ### the treatment of one request: the model's trace, in the vocabulary of the source -/
+open Pams.Runner
+
+/-- the calls and agent look-ups of `_handle_orders` that one event of the model's trace stands for
+(buyer = agent 1, seller = agent 2 in the demonstration request below) -/
+def callsOf : Ev → List String
+  | .hookOrderBefore _ _ => ["_trigger_event_before_order"]
+  | .addOrder _ _ => ["_add_order"]
+  | .cbSubmitted _ _ => ["agent:agent_id", "submitted_order"]
+  | .hookOrderAfter _ _ => ["_trigger_event_after_order"]
+  | .hookCancelBefore _ _ => ["_trigger_event_before_cancel"]
+  | .cancel _ _ => ["_cancel_order"]
+  | .cbCanceled _ _ => ["agent:order.agent_id", "canceled_order"]
+  | .hookCancelAfter _ _ => ["_trigger_event_after_cancel"]
+  | .execution _ => ["_execution"]
+  | .ledger _ => ["_update_agents_for_execution", "for["]
+  | .cbExecuted a _ => [if a = 1 then "agent:buy_agent_id" else "agent:sell_agent_id", "executed_order"]
+  | .hookExecAfter _ _ => ["_trigger_event_after_execution", "]"]
+  | _ => ["<glue>"]
+
+/-- an accepted request whose round (if one runs) produces one fill, buyer 1, seller 2 -/
+def demoRequest (isCancel : Bool) : Request :=
+  { owner := 7, market := 0, isCancel := isCancel, ref := 0, accepted := true,
+    fills := some [{ buyer := 1, seller := 2, ref := 0, halts := false }] }
+
+/-- what `Runner.processRequest` does for that request, as the source's calls in order -/
+def modelPath (isCancel execution : Bool) : List String :=
+  (processRequest 0 execution (demoRequest isCancel)).tr.flatMap callsOf
 
 end Pams.Source
